@@ -33,7 +33,7 @@ let () =
             | _ -> failwith "encoding" in
           let v11 = (ver = "1.1") in
           let rest = (match rest with "-L" :: r -> r | r -> r) in
-          (match serialize k v11 (ascii ver) (ascii enc) (events rest) with
+          (match serialize_fast k v11 (ascii ver) (ascii enc) (events rest) with
            | Ok l -> Printf.printf "%s ok %s\n" id (token_of_u16 l)
            | Oob -> Printf.printf "%s oob\n" id
            | Thrown c -> Printf.printf "%s err %d\n" id (int_of_n c))
